@@ -184,9 +184,19 @@ class FragmentsOnCompositeTypesChecker(ValidationVisitor):
     union), the type condition must also be a composite type.
     """
 
+    def _type_condition(self, node):
+        try:
+            return self.schema.get_type_from_literal(node.type_condition)
+        except UnknownType as err:
+            self.add_error(
+                'Fragment cannot condition on unknown type "%s".' % err,
+                [node.type_condition],
+            )
+            raise SkipNode()
+
     def enter_inline_fragment(self, node):
         if node.type_condition:
-            type_ = self.schema.get_type_from_literal(node.type_condition)
+            type_ = self._type_condition(node)
             if not isinstance(type_, GraphQLCompositeType):
                 self.add_error(
                     'Fragment cannot condition on non composite type "%s".'
@@ -196,7 +206,7 @@ class FragmentsOnCompositeTypesChecker(ValidationVisitor):
                 raise SkipNode()
 
     def enter_fragment_definition(self, node):
-        type_ = self.schema.get_type_from_literal(node.type_condition)
+        type_ = self._type_condition(node)
         if not isinstance(type_, GraphQLCompositeType):
             self.add_error(
                 'Fragment "%s" cannot condition on non composite type "%s".'
@@ -403,15 +413,17 @@ class PossibleFragmentSpreadsChecker(ValidationVisitor):
         self._fragment_types = dict()  # type: Dict[str, GraphQLType]
 
     def enter_document(self, node):
-        self._fragment_types.update(
-            {
-                definition.name.value: self.schema.get_type_from_literal(
-                    definition.type_condition
-                )
-                for definition in node.definitions
-                if type(definition) == _ast.FragmentDefinition
-            }
-        )
+        for definition in node.definitions:
+            if type(definition) == _ast.FragmentDefinition:
+                try:
+                    self._fragment_types[
+                        definition.name.value
+                    ] = self.schema.get_type_from_literal(
+                        definition.type_condition
+                    )
+                except UnknownType:
+                    # Reported by FragmentsOnCompositeTypesChecker.
+                    self._fragment_types.pop(definition.name.value, None)
 
     def enter_fragment_spread(self, node):
         name = node.name.value
